@@ -73,8 +73,13 @@ def envOf? (j : Json) : Option Env := do
   let kinds := [Kind.mergeBody, .mergeStatus, .jsonBody, .jsonStatus]
   let slips ← kinds.mapM (fun k =>
     match jField? sl (kindName k) with
-    | none | some .null => some (k, (none : Option Foreign))
-    | some w => (foreignOf? w).map (fun x => (k, some x)))
+    | none | some .null => some (k, ([] : List Foreign))
+    | some (.arr ws) =>
+        -- one write `["edit", …]` or a list of writes `[["edit", …], ["delete"]]`
+        match ws.toList with
+        | .str _ :: _ => (foreignOf? (.arr ws)).map (fun x => (k, [x]))
+        | l => (l.mapM foreignOf?).map (fun xs => (k, xs))
+    | some _ => none)
   let faults ← kinds.mapM (fun k =>
     match jField? fl (kindName k) with
     | none => some (k, Fault.none)
@@ -82,9 +87,11 @@ def envOf? (j : Json) : Option Env := do
       | some 0 => some (k, Fault.none)
       | some 404 => some (k, Fault.notFound)
       | some 422 => some (k, Fault.unprocessable)
-      | _ => none)
+      | some 200 => none
+      | some c => some (k, Fault.error c)
+      | none => none)
   let look {α} (l : List (Kind × α)) (d : α) (k : Kind) : α := ((l.find? (·.1 == k)).map (·.2)).getD d
-  some { slips := look slips none, faults := look faults Fault.none }
+  some { slips := look slips [], faults := look faults Fault.none }
 
 def payloadJson : Payload → Json
   | .merge p => Json.mkObj [("merge", ofJ (.obj p))]
